@@ -329,3 +329,36 @@ Definition spec_ok (c : coll) (dflts overrides : tree) (bodies : nat -> list op)
            (envs : list (list (string * string)))
            (obs : result (list brecord * option err)) : bool :=
   spec_gen false (map (fun r : brecord => home c (fst (fst (fst r))))) c dflts overrides bodies envs obs.
+
+(** ** one collection object mounted under several parents
+    A sub-collection added to two parents gives each of its tasks two namespace
+    paths; which one a call is on is decided by the name it was called as.
+    [call_path]: a call made by name lives where that name leads ([ref_path],
+    C17's reference walk: the configurations of the collections the name passes,
+    root first); calls without a name, and names outside the canonical form,
+    live where the task is (first) bound -- in a tree where every task is bound
+    once both agree. *)
+Definition call_path (c : coll) (tid : nat) (called_as : option string) : option (list dict) :=
+  match called_as with
+  | Some n => match ref_path c (segs_of n) with
+              | Some (t, cfgs) => if Nat.eqb (t_id t) tid then Some cfgs else home c tid
+              | None => home c tid
+              end
+  | None => home c tid
+  end.
+
+(** [names]: for every record, the name its call was made as (missing = none) *)
+Fixpoint paths_by_name (c : coll) (recs : list brecord) (names : list (option string))
+  : list (option (list dict)) :=
+  match recs with
+  | [] => []
+  | r :: recs' =>
+      call_path c (fst (fst (fst r))) (match names with n :: _ => n | [] => None end)
+      :: paths_by_name c recs' (List.tl names)
+  end.
+
+Definition spec_ok_named (c : coll) (dflts overrides : tree) (bodies : nat -> list op)
+           (envs : list (list (string * string))) (names : list (option string))
+           (obs : result (list brecord * option err)) : bool :=
+  spec_gen false (fun recs => paths_by_name c recs names) c dflts overrides bodies envs obs.
+
